@@ -75,7 +75,7 @@ theorem world_target_zero_or_alive : type_of% @Ark.Props.C04World.target_zero_or
 /-- an accepted `NewEntity(ids, rels)` (any path): invariant kept, the new entity's targets are the ones given, nobody else changes -/
 theorem world_newEntity_assigns_targets : type_of% @Ark.Props.C04World.newEntity_assigns_targets := @Ark.Props.C04World.newEntity_assigns_targets
 
-/-- a dead target is rejected with the world unchanged (typed paths) -/
+/-- a dead target is rejected with the world unchanged (every path, since the repair of the `Unsafe` API) -/
 theorem world_newEntity_dead_target_rejected : type_of% @Ark.Props.C04World.newEntity_dead_target_rejected := @Ark.Props.C04World.newEntity_dead_target_rejected
 
 /-- a dead target is never accepted (all paths) -/
@@ -84,7 +84,7 @@ theorem world_newEntity_dead_target_not_accepted : type_of% @Ark.Props.C04World.
 /-- `Add` with relations: targets assigned, old targets/components/values kept, nobody else changes -/
 theorem world_add_assigns_targets : type_of% @Ark.Props.C04World.add_assigns_targets := @Ark.Props.C04World.add_assigns_targets
 
-/-- `Add` with a dead target is rejected -/
+/-- `Add` with a dead target is rejected with the world unchanged (every path) -/
 theorem world_add_dead_target_rejected : type_of% @Ark.Props.C04World.add_dead_target_rejected := @Ark.Props.C04World.add_dead_target_rejected
 
 /-- `SetRelations`: named targets assigned, unnamed targets, components and values kept, nobody else changes -/
@@ -96,7 +96,7 @@ theorem world_opSetRelations_assigns_targets : type_of% @Ark.Props.C04World.opSe
 /-- a `SetRelations` whose targets are zero or alive never fails -/
 theorem world_setRelations_never_fails : type_of% @Ark.Props.C04World.setRelations_never_fails := @Ark.Props.C04World.setRelations_never_fails
 
-/-- `SetRelations` with a dead target is rejected with the world unchanged (typed paths) -/
+/-- `SetRelations` with a dead target is rejected with the world unchanged (every path, since the repair of the `Unsafe` API) -/
 theorem world_setRelations_dead_target_rejected : type_of% @Ark.Props.C04World.setRelations_dead_target_rejected := @Ark.Props.C04World.setRelations_dead_target_rejected
 
 /-- … and never accepted on any path -/
